@@ -261,13 +261,13 @@ func (s *Schema) Check() []error {
 
 // buildRels builds the set of normalized relationships that is returned by
 // Schema.Rels.
-func (s *Schema) buildRels() map[string]Rel {
-	rels := map[string]Rel{}
+func (s *Schema) buildRels() map[Rel]Rel {
+	rels := map[Rel]Rel{}
 
 	for _, typ := range s.Types {
 		for _, rel := range typ.Rels {
-			relName := rel.String()
-			rels[relName] = rel.Normalize()
+			norm := rel.Normalize()
+			rels[norm] = norm
 		}
 	}
 
